@@ -45,6 +45,12 @@ type Case struct {
 	// TextForms names the extra parts whose XML text was re-spelled and how ("footnotes:crlf"); informative (labels),
 	// the re-spelled text itself is in Pkg.Parts[i].XML
 	TextForms []string `json:"text_forms,omitempty"`
+	// TSpell: character data of some w:t of the main part written in several pieces (CDATA section, comment or
+	// processing instruction inside the text), applied to the rendered main part (spelling.go)
+	TSpell []TSpell `json:"tspell,omitempty"`
+	// EmptyParts names the notes / numbering / comments parts that consist of a root element without children and how
+	// the root is written ("endnotes:self-closed"); informative (labels), the text itself is in Pkg.Parts[i].XML
+	EmptyParts []string `json:"empty_parts,omitempty"`
 }
 
 // edit ops: what the design lists (append paragraph/heading/table, images, header/footer, list item,
@@ -138,6 +144,14 @@ func genCase(t *rapid.T) Case {
 	if rapid.SampledFrom([]bool{false, true, false}).Draw(t, "math") {
 		foreign.AddMath(t, &c.Pkg)
 	}
+	// notes / numbering / comments parts that hold nothing: the root element alone, self-closed or as an empty pair
+	if rapid.IntRange(0, 2).Draw(t, "emptyparts") == 0 {
+		c.EmptyParts = genEmptyParts(t, &c.Pkg)
+	}
+	// the text of some w:t written in several pieces: CDATA section, comment, processing instruction inside the text
+	if rapid.IntRange(0, 3).Draw(t, "tspell") == 0 {
+		c.TSpell = genTSpell(t)
+	}
 	if rapid.SampledFrom([]bool{false, true, true, false, true}).Draw(t, "edits") { // empty in 40 % of the cases
 		c.Ops = cfg.History(t, 1, kit.Scale(8, 14))
 		if rapid.IntRange(0, 2).Draw(t, "imgtail") == 0 { // several pictures in a row: the image counter matters
@@ -156,6 +170,15 @@ func genCase(t *rapid.T) Case {
 		for i := 0; i < n; i++ {
 			o := ops.Op{K: rapid.SampledFrom(lookupKinds).Draw(t, "lookup"), S: []string{rapid.SampledFrom(cfg.StyleIDs).Draw(t, "lookupid")}}
 			at := rapid.IntRange(0, len(c.Ops)).Draw(t, "lookupat")
+			c.Ops = append(c.Ops[:at], append([]ops.Op{o}, c.Ops[at:]...)...)
+		}
+	}
+	// questions about notes and lists (note counts, restart of a list that does not exist), anywhere in the history
+	if rapid.IntRange(0, 3).Draw(t, "notelookups") == 0 && (len(c.Ops) > 0 || rapid.IntRange(0, 2).Draw(t, "notelookupsonly") == 0) {
+		n := rapid.IntRange(1, 2).Draw(t, "nnotelookups")
+		for i := 0; i < n; i++ {
+			o := ops.Op{K: rapid.SampledFrom(noteLookupKinds).Draw(t, "notelookup")}
+			at := rapid.IntRange(0, len(c.Ops)).Draw(t, "notelookupat")
 			c.Ops = append(c.Ops[:at], append([]ops.Op{o}, c.Ops[at:]...)...)
 		}
 	}
@@ -499,7 +522,16 @@ func run(c Case) *kit.Result {
 		res.Label("pkg:text:" + tf[strings.Index(tf, ":")+1:])
 		res.Label("pkg:text:respelled")
 	}
-	pb := c.Pkg.BytesMath() // == Bytes() for a package without formulas
+	for _, ep := range c.EmptyParts {
+		res.Label("pkg:empty-root:" + ep[:strings.Index(ep, ":")])
+		res.Label("pkg:empty-root:" + ep[strings.Index(ep, ":")+1:])
+		res.Label("pkg:empty-root")
+	}
+	pb, spelled := render(c) // == Pkg.BytesMath() (== Bytes() for a package without formulas) unless some w:t is re-spelled
+	for _, f := range spelled {
+		res.Label("pkg:t-spelling:" + f)
+		res.Label("pkg:t-spelling")
+	}
 	P, err := opc.Read(pb)
 	if err != nil || P.CTErr != nil {
 		res.Fail("C04.gen", "generated package unreadable by the oracle's reader: %v %v", err, P)
@@ -573,6 +605,8 @@ func run(c Case) *kit.Result {
 			switch {
 			case isLookup(op.K):
 				doLookup(x.Doc, op)
+			case isNoteLookup(op.K):
+				doNoteLookup(x, op)
 			case isLocal(op.K):
 				e = doLocal(x, op)
 			case isOther(op.K):
@@ -898,6 +932,14 @@ func run(c Case) *kit.Result {
 		return res
 	}
 	tp := concat(items)
+	if len(spelled) > 0 {
+		// the re-spelled main part must carry the text the writer's own spelling carries
+		plain, e := bodyItems(c.Pkg.DocumentXMLMath())
+		if e != nil || concat(plain) != tp || len(plain) != len(items) {
+			res.Fail("C04.gen", "re-spelling the character data changed the text the main part carries: %q vs %q (%v)", clip(concat(plain)), clip(tp), e)
+			return res
+		}
+	}
 	if n5 == "skip" {
 		res.Count("n5_skipped_removal", 1)
 	} else {
@@ -1026,7 +1068,7 @@ func relatedFrom(Q *opc.Package, name string) string {
 func TestC04(t *testing.T) {
 	kit.Main(t, kit.Spec[Case]{
 		ID: "C04", Level: "exploration",
-		Rule: "a generated foreign package (independent writer: namespace prefixes, extra parts with own relationship parts, external relationships, id shapes, media names, nested runs, multi-w:t runs, tables, section breaks; in a third of the packages inline OMML formulas - m:oMath / m:oMathPara, one or two per paragraph, between the text runs or inside a run container, m: or another prefix declared on the document element or on the formula) x an edit history between Open/OpenFromMemory and Save/ToBytes: none (about 10 %), or 1-8 (thorough 1-14) generated edit calls, optionally read-only style-manager lookups, header/footer calls on packages that bring header/footer parts (their relationship targets also spelled /word/x or ./x), and - when the package holds image<K> media that the main part does not relate to - pictures of the formats that a counter looking only at the main part would write under those names; in half of the cases 1-3 calls the library may reject, anywhere in the history (RemoveFootnote/RemoveEndnote with ids the package has or lacks, RemoveParagraphAt/RemoveElementAt inside and outside the body, AddImageFromFile of a missing file / a file that is no image, AddCellImageFromData / AddImageFromData with bytes that are no image, header/footer calls with a type that is none of default/first/even, SetPageSettings with nil / out-of-range / valid settings, CreateMultiLevelList, SetFootnoteConfig(nil)); in two thirds of the packages the XML text of extra parts is re-spelled (no declaration, declaration and root on one line, CRLF, byte order mark, white space before the root's end tag, newline after it); in an eighth of the packages a family of media named image<N> with N past one digit (image1..image10-13, rarely ..17/33/65; image9|image10, image99|image100 and the like; 2-5 numbers from 0..130) followed by 1-4 (rarely 12) pictures of the formats those names have; in a sixteenth header1..headerN / footer1..footerN with N = 10..17 followed by 1-4 header/footer calls; one package in forty with a long body (up to 72 block-level children); in a sixth of the cases a second document object (same package, new document, other package) that receives calls alternating with those on the judged document; " +
+		Rule: "a generated foreign package (independent writer: namespace prefixes, extra parts with own relationship parts, external relationships, id shapes, media names, nested runs, multi-w:t runs, tables, section breaks; in a third of the packages inline OMML formulas - m:oMath / m:oMathPara, one or two per paragraph, between the text runs or inside a run container, m: or another prefix declared on the document element or on the formula) x an edit history between Open/OpenFromMemory and Save/ToBytes: none (about 10 %), or 1-8 (thorough 1-14) generated edit calls, optionally read-only style-manager lookups, header/footer calls on packages that bring header/footer parts (their relationship targets also spelled /word/x or ./x), and - when the package holds image<K> media that the main part does not relate to - pictures of the formats that a counter looking only at the main part would write under those names; in half of the cases 1-3 calls the library may reject, anywhere in the history (RemoveFootnote/RemoveEndnote with ids the package has or lacks, RemoveParagraphAt/RemoveElementAt inside and outside the body, AddImageFromFile of a missing file / a file that is no image, AddCellImageFromData / AddImageFromData with bytes that are no image, header/footer calls with a type that is none of default/first/even, SetPageSettings with nil / out-of-range / valid settings, CreateMultiLevelList, SetFootnoteConfig(nil)); in two thirds of the packages the XML text of extra parts is re-spelled (no declaration, declaration and root on one line, CRLF, byte order mark, white space before the root's end tag, newline after it); in an eighth of the packages a family of media named image<N> with N past one digit (image1..image10-13, rarely ..17/33/65; image9|image10, image99|image100 and the like; 2-5 numbers from 0..130) followed by 1-4 (rarely 12) pictures of the formats those names have; in a sixteenth header1..headerN / footer1..footerN with N = 10..17 followed by 1-4 header/footer calls; one package in forty with a long body (up to 72 block-level children); in a sixth of the cases a second document object (same package, new document, other package) that receives calls alternating with those on the judged document; in a quarter of the packages the character data of 1-3 w:t written in several pieces (CDATA section around part or all of the text, two CDATA sections, a comment or processing instruction inside the text); in a third of the packages notes / numbering / comments parts that are a root element without children (self-closed, self-closed with a blank, empty start/end pair), an empty endnotes part added to packages that have none; in a quarter of the cases 1-2 questions that edit nothing (GetFootnoteCount, GetEndnoteCount, RestartNumbering of a list id nobody has); " +
 			"non-trivial = package has >= 2 extra parts and at least one of {external relationship, run nested in hyperlink/ins/smartTag/sdt, run with several w:t, media name the library would not choose, relationship ids that are not the dense rId1..N}; " +
 			"distinct = distinct (feature set of the package, sequence of (op kind, outcome), entry points)",
 		Gen: genCase, Run: run, Findings: findings, Fixed: fixedCases,
@@ -1037,6 +1079,7 @@ func TestC04(t *testing.T) {
 			"parts an accepted edit rewrites by design (the header/footer part the package's sections reference for the kind that is set, numbering after a list call, footnotes/endnotes after a note call, settings after SetFootnoteConfig, docProps after a properties call) join the regenerated set and are not compared",
 			"the edits never touch content that came with the package, except an ACCEPTED RemoveParagraphAt/RemoveElementAt, after which the text clause is not evaluated; the text clause demands strict document order (text that moved is lost at its place)",
 			"a refused Open or a failed Save loses nothing and is counted, not judged",
+			"a CDATA section, a comment or a processing instruction inside the character data of a w:t does not change the text the run carries (XML infoset); GetFootnoteCount / GetEndnoteCount / RestartNumbering of an id that does not exist are questions, not edits",
 			"calls on a second document object are no edits of the judged document; when the second object was opened from the same package, the media of the package are held to N4 in its output too",
 		},
 		MustSee: map[string]float64{"pkg:" + foreign.FExtRel: 0.05, "feat:nested-run": 0.05, "pkg:" + foreign.FMultiT: 0.05, "pkg:" + foreign.FMediaOddName: 0.05,
@@ -1047,6 +1090,9 @@ func TestC04(t *testing.T) {
 			"pkg:media:number>=10": 0.08, "pkg:media:lower-number-sorts-after-highest": 0.06, "pkg:media:number>=100": 0.005, "pkg:media:count>=10": 0.02, "edits:images-added-to-package-with-media-numbered>=10": 0.06,
 			"pkg:header-footer-parts>=10": 0.03, "edits:header-footer-set-on-package-with>=10": 0.03, "pkg:body-children>16": 0.005, "pkg:main-relationships>=10": 0.05, "edits:second-document-object-of-same-package": 0.04,
 			"edits:some-rejected": 0.25, "rejected:rmfootnote": 0.1, "rejected:rmendnote": 0.04, "rejected:rmparaat": 0.02, "rejected:rmelemat": 0.02, "rejected:imagefilebad": 0.03, "rejected:pagesettings": 0.02, "rejected:cellimgbad": 0.02, "edits:none": 0.05,
-			"edits:note-removal-on-package-with-notes": 0.05, "pkg:text:respelled": 0.3, "pkg:text:crlf": 0.05, "pkg:text:bom": 0.05, "pkg:text:nodecl": 0.05, "pkg:text:nl-before-root-end": 0.05},
+			"edits:note-removal-on-package-with-notes": 0.05, "pkg:text:respelled": 0.3, "pkg:text:crlf": 0.05, "pkg:text:bom": 0.05, "pkg:text:nodecl": 0.05, "pkg:text:nl-before-root-end": 0.05,
+			"pkg:t-spelling": 0.12, "pkg:t-spelling:cdata-inside": 0.05, "pkg:t-spelling:cdata2-inside": 0.02, "pkg:t-spelling:comment-inside": 0.02, "pkg:t-spelling:pi-inside": 0.01,
+			"pkg:empty-root": 0.1, "pkg:empty-root:self-closed": 0.05, "pkg:empty-root:pair": 0.02, "pkg:empty-root:endnotes": 0.08, "pkg:empty-root:footnotes": 0.01, "pkg:empty-root:numbering": 0.01,
+			"op:qfncount": 0.05, "op:qencount": 0.05, "op:qrestartnone": 0.05},
 	})
 }
